@@ -3309,6 +3309,14 @@ impl<'a> Visitor<'a, '_, Error> for JSONValidator<'a> {
               n
             )),
           },
+          // a negative integer is below (and different from) any unsigned controller
+          None if n.is_i64() => match &self.state.ctrl {
+            Some(ControlOperator::NE)
+            | Some(ControlOperator::DEFAULT)
+            | Some(ControlOperator::LT)
+            | Some(ControlOperator::LE) => None,
+            _ => Some(format!("expected value {}, got {}", v, n)),
+          },
           None => Some(format!("{} cannot be represented as a u64", n)),
         },
         Value::String(s) => match &self.state.ctrl {
